@@ -115,6 +115,10 @@ def getitem(I, base, idx):
         i = norm_index(I, idx, base.length)
         return base.elem(i)
     if isinstance(base, PDict):
+        if I.lenient and isinstance(idx, Opaque):
+            if idx in base.items:
+                return base.items[idx]
+            return Opaque(f"dict[{idx.tag}]")
         if I.is_concrete(idx):
             try:
                 if idx in base.items:
@@ -153,6 +157,11 @@ def getitem(I, base, idx):
         from . import models_h5
 
         return models_h5.getitem(I, base, idx)
+    if isinstance(base, Opaque) and I.lenient:
+        key = ("item", repr(idx) if I.is_concrete(idx) else id(idx))
+        if key not in base.cache:
+            base.cache[key] = base.child(f"{base.tag}[{idx if I.is_concrete(idx) else '?'}]")
+        return base.cache[key]
     if inspect.isclass(base):
         return base  # typing subscripts: list[int]
     raise Unsupported(f"subscript of {type(base).__name__} at {I.where()}")
@@ -166,8 +175,8 @@ def setitem(I, base, idx, value):
             return
         raise Unsupported("list store with symbolic index")
     if isinstance(base, PDict):
-        if I.is_concrete(idx):
-            base.items[idx] = value
+        if I.is_concrete(idx) or (I.lenient and isinstance(idx, Opaque)):
+            base.items[idx] = value  # opaque keys are kept by identity
             return
         from .values import promote_dict
 
@@ -192,6 +201,11 @@ def setitem(I, base, idx, value):
         if raw is not None:
             I.call_repo(raw, [base, idx, value], {}, None)
             return
+    if isinstance(base, Opaque) and I.lenient:
+        I.mutation(base, "__setitem__")
+        key = ("item", repr(idx) if I.is_concrete(idx) else id(idx))
+        base.cache[key] = value
+        return
     raise Unsupported(f"item store on {type(base).__name__} at {I.where()}")
 
 
@@ -216,6 +230,9 @@ def delitem(I, base, idx):
         from . import models_h5
 
         return models_h5.delitem(I, base, idx)
+    if isinstance(base, Opaque) and I.lenient:
+        I.mutation(base, "__delitem__")
+        return
     raise Unsupported(f"del item on {type(base).__name__}")
 
 
@@ -238,6 +255,12 @@ def seq_len(I, v):
         return v.shape[0]
     if isinstance(v, (tuple, list, str, bytes, dict, set, frozenset)):
         return len(v)
+    if isinstance(v, Opaque) and I.lenient:
+        if "len" not in v.cache:
+            n = sym("len", "int")
+            I.path.assume(n.e >= 0)
+            v.cache["len"] = n
+        return v.cache["len"]
     if isinstance(v, Obj):
         raw = None
         for k in v.cls.__mro__:
@@ -304,6 +327,10 @@ def m_isinstance(I, args, kw):
     classes = tuple(_untype(c) for c in classes)
     if hasattr(v, "sym_isinstance"):
         return v.sym_isinstance(I, classes)
+    if isinstance(v, Opaque) and I.lenient and not v.tag.startswith("h5"):
+        if v.cls is not None:
+            return issubclass(v.cls, classes)
+        return mk(I.opaque_bool(("isinstance", id(v), tuple(getattr(c, "__name__", repr(c)) for c in classes)), "isinstance?"), "bool")
     if isinstance(v, DynV):
         D = dyn_sort()
         conds = []
@@ -351,6 +378,12 @@ def m_hasattr(I, args, kw):
         return inspect.isclass(obj.cls) and any(name in k.__dict__ for k in obj.cls.__mro__)
     if isinstance(obj, AbsObj):
         return name in obj.attrs or name in obj.methods
+    if isinstance(obj, Opaque) and I.lenient:
+        if name in obj.attrs:
+            return True
+        if obj.cls is not None:
+            return hasattr(obj.cls, name) or name.startswith("_")
+        return mk(I.opaque_bool(("hasattr", id(obj), name), "hasattr?"), "bool")
     if isinstance(obj, (SV, DynV, PList, PDict, SList, SDict)):
         return hasattr(class_of(I, obj) if not isinstance(obj, DynV) else object, name)
     if isinstance(obj, Arr):
@@ -453,6 +486,8 @@ def m_list(I, args, kw):
     if not args:
         return PList()
     s = I.unwrap(args[0])
+    if isinstance(s, Opaque) and I.lenient and not s.tag.startswith("h5"):
+        return Opaque(f"list({s.tag})", elem_frozen=s.elem_frozen)
     if isinstance(s, SList) and not isinstance(s.length, int):
         return SList(s.length, s.elem, s.tag)
     if isinstance(s, SDict):
@@ -475,6 +510,8 @@ def m_tuple(I, args, kw):
 @model(builtins.dict)
 def m_dict(I, args, kw):
     d = PDict()
+    if args and isinstance(args[0], Opaque) and I.lenient:
+        return Opaque(f"dict({args[0].tag})", elem_frozen=args[0].elem_frozen)
     if args:
         src = args[0]
         if isinstance(src, PDict):
@@ -705,6 +742,8 @@ def m_deepcopy(I, args, kw):
     from .values import snapshot
 
     v = args[0]
+    if isinstance(v, Opaque) and I.lenient:
+        return Opaque(f"deepcopy({v.tag})")
     if isinstance(v, Obj):
         raise Unsupported("deepcopy of an entity")
     return snapshot(v)
